@@ -188,7 +188,17 @@ fn apply_fault(chunks: &mut Vec<ChunkSpec>, f: &NetFault) -> bool {
                 let b = boards::pwb_boards();
                 let cur = chunks[i].device_id;
                 let k = b.iter().position(|x| x.device_id == cur).unwrap_or(0);
-                chunks[i].device_id = b[(k + 1) % b.len()].device_id;
+                // the foreign board: for even chunk positions the next one in the table, for odd ones the
+                // board whose device id is CLOSEST to this one (fewest differing bits, then highest
+                // differing bit) - ids that collide under a truncated or folded comparison
+                chunks[i].device_id = if i % 2 == 0 {
+                    b[(k + 1) % b.len()].device_id
+                } else {
+                    b.iter()
+                        .filter(|x| x.device_id != cur)
+                        .min_by_key(|x| ((x.device_id ^ cur).count_ones(), (x.device_id ^ cur).leading_zeros()))
+                        .map_or(cur, |x| x.device_id)
+                };
             }
             if other_chip {
                 chunks[i].chip = (chunks[i].chip + 1) % 4;
